@@ -186,7 +186,7 @@ func runAwsCase(c AwsCase) AwsObs {
 		}
 		obs.Calls = append(obs.Calls, cl)
 	}
-	obs.Post = world.Asg{Min: int(asg.Min), Max: int(asg.Max), Desired: int(asg.Desired), Members: []string{}}
+	obs.Post = world.Asg{Min: int(asg.Min), Max: int(asg.Max), Desired: int(asg.Desired), Members: []string{}, Terminating: []string{}}
 	for _, i := range asg.Instances {
 		obs.Post.Members = append(obs.Post.Members, i.ID)
 	}
